@@ -413,9 +413,7 @@ def finish(prop, tier, seed, recs, errors, t0, rule, level_text=None, floors=Non
                 continue
             viols.setdefault(r["key"], []).append(r)
         elif t == "crash":
-            if r.get("prop") not in (None, prop) and not r.get("atexit"):
-                cells["other-property-crashes:" + str(r.get("prop"))] = cells.get("other-property-crashes:" + str(r.get("prop")), 0) + 1
-                continue
+            # a sanitizer report / abort / hang during this check's runs always counts against this check
             r["prop"] = prop
             k = crash_key(r)
             r["key"] = k
